@@ -172,8 +172,14 @@ def decide(pid, tier, seed, jobs, record, no_bounded, t0):
         lines.append(f"UNDECIDED property={pid} obligation={o['name']} reason={o.get('reason', 'unknown')}")
     for r in undecided_fns:
         lines.append(f"UNDECIDED property={pid} function={r['function']} reason={r['status']}: {r.get('reason', '')[:200]}")
-    for fn, o in vacuous:
-        guard_problems.append(f"vacuous path condition: {o['name']}")
+    # a vacuous cover is an error for preconditions and exits; a loop body may legitimately be unreachable on SOME of the
+    # paths that reach the loop (e.g. an empty list on that path) but not on all of them
+    by_name = {}
+    for fn, o in covers:
+        by_name.setdefault(o["name"], []).append(o["status"])
+    for nm, sts in by_name.items():
+        if all(x == "vacuous" for x in sts) or (("cover.requires" in nm or "cover.exit" in nm) and "vacuous" in sts):
+            guard_problems.append(f"vacuous path condition: {nm}")
     for r in crash:
         guard_problems.append(f"engine crash in {r['function']}: {r.get('reason', '')[-400:]}")
     if bounded is not None and bounded.get("harness_error"):
